@@ -30,16 +30,16 @@ var e1Exempt = map[string]string{
 	"(*strings.Builder).WriteByte":   "documented to always return a nil error",
 	"(*strings.Builder).WriteRune":   "documented to always return a nil error",
 	"(*strings.Builder).Write":       "documented to always return a nil error",
-	"(*bytes.Buffer).WriteString": "documented to always return a nil error",
-	"(*bytes.Buffer).WriteByte":   "documented to always return a nil error",
-	"(*bytes.Buffer).WriteRune":   "documented to always return a nil error",
-	"(*bytes.Buffer).Write":       "documented to always return a nil error",
-	"fmt.Fprintf":                 "diagnostic output channel; its failure is outside every property",
-	"fmt.Fprintln":                "diagnostic output channel; its failure is outside every property",
-	"fmt.Fprint":                  "diagnostic output channel; its failure is outside every property",
-	"fmt.Printf":                  "output channel error is not observable by the library properties (C19 checks what is printed, not the write error)",
-	"fmt.Println":                 "output channel error is not observable by the library properties",
-	"fmt.Print":                   "output channel error is not observable by the library properties",
+	"(*bytes.Buffer).WriteString":    "documented to always return a nil error",
+	"(*bytes.Buffer).WriteByte":      "documented to always return a nil error",
+	"(*bytes.Buffer).WriteRune":      "documented to always return a nil error",
+	"(*bytes.Buffer).Write":          "documented to always return a nil error",
+	"fmt.Fprintf":                    "diagnostic output channel; its failure is outside every property",
+	"fmt.Fprintln":                   "diagnostic output channel; its failure is outside every property",
+	"fmt.Fprint":                     "diagnostic output channel; its failure is outside every property",
+	"fmt.Printf":                     "output channel error is not observable by the library properties (C19 checks what is printed, not the write error)",
+	"fmt.Println":                    "output channel error is not observable by the library properties",
+	"fmt.Print":                      "output channel error is not observable by the library properties",
 }
 
 // stdlib callees whose failure must become the caller's failure (E2), by
